@@ -282,7 +282,12 @@ def merge(ro, msg):
             out.exc = e
     out.warns = own_warnings(rec)
     if out.exc is None and out.result is not ro:
-        out.exc = BadReturn('ro + msg returned %s instead of the running order' % type(out.result).__name__)
+        if isinstance(out.result, mt.RunningOrder) and type(out.result) is type(ro):
+            # a different RunningOrder object is a legitimate return value: `ro += msg` rebinds the caller's
+            # variable to it, so the harness's `ro` is made to show what the caller would see
+            ro._xml = out.result._xml
+        else:
+            out.exc = BadReturn('ro + msg returned %s instead of the running order' % type(out.result).__name__)
     return out
 
 
